@@ -4,11 +4,13 @@
 cd /verif
 for d in seeded/r-*/; do
   id=$(basename $d)
+  n=${id##*-}
+  # the sixth round was run in full on the final checks already
+  case $id in r-c12-*) [ $n -ge 22 ] && continue ;; *) [ $n -ge 16 ] && continue ;; esac
   case $id in
     r-c11-*|r-c12-*) props=C11,C12 ;;
     r-c14-*) props=C14,C11 ;;
     r-c15-*) props=C15 ;;
-    r-l11-*|r-l12-*|r-l14-*|r-l15-*) continue ;;
   esac
   note=$(/venv/bin/python -c "import json;print(json.load(open('$d/meta.json')).get('note','')[:500])")
   REFACTOR_SKIP_TESTS=1 REFACTOR_PROPS=$props /venv/bin/python tools/refactor_check.py $id $d/patch.diff "$note" 2>&1 | tail -3
